@@ -184,7 +184,58 @@ class C14:
     def units(self, tier: str, seed: int) -> list:
         cs = configs(tier)
         step = max(1, len(cs) // 48)
-        return [{"lo": i, "hi": min(len(cs), i + step)} for i in range(0, len(cs), step)]
+        return [{"lo": i, "hi": min(len(cs), i + step)} for i in range(0, len(cs), step)] + [{"rebind": how} for how in ("root", "child", "config")]
+
+    def rebind_unit(self, unit: dict) -> dict:
+        """A `module:attr` reference names what the module attribute IS when the tree is started: after the attribute has been bound
+        to another class (a reloaded plug-in), the same reference gives the new class, as the class object itself would."""
+        import anyio
+
+        fails: list = []
+
+        async def main() -> None:
+            import vkplugins.comps as mod
+            from asphalt.core import Component, Context, start_component
+
+            made: list = []
+
+            def make_class(tag: str) -> type:
+                class Swapped(Component):
+                    def __init__(self, **kw: Any) -> None:
+                        made.append(tag)
+
+                return Swapped
+
+            class Parent(Component):
+                def __init__(self) -> None:
+                    if unit["rebind"] == "child":
+                        self.add_component("c", type="vkplugins.comps:Swappable")
+
+            for tag in ("first", "second"):
+                mod.Swappable = make_class(tag)  # type: ignore[attr-defined]
+                async with Context():
+                    if unit["rebind"] == "root":
+                        await start_component("vkplugins.comps:Swappable", {}, timeout=None)
+                    elif unit["rebind"] == "child":
+                        await start_component(Parent, {}, timeout=None)
+                    else:
+                        await start_component(Parent, {"components": {"c": {"type": "vkplugins.comps:Swappable"}}}, timeout=None)
+            if made != ["first", "second"]:
+                fails.append(("component-type", f"the reference vkplugins.comps:Swappable was started twice with the attribute re-bound in between: "
+                                                f"classes instantiated {made}, expected ['first', 'second']"))
+
+        try:
+            anyio.run(main)
+        except BaseException as e:  # noqa: BLE001
+            fails.append(("component-type", f"scenario raised {e!r}"))
+        s = new_summary()
+        s["evaluations"] = s["transitions"] = s["states"] = s["distinct"] = s["nontrivial"] = 1
+        s["outcomes"] = {"done": 1}
+        if fails:
+            s["violations"].append({"keys": ["component-type"], "fails": [list(f) for f in fails], "program": dict(unit), "choices": [], "trace": [],
+                                    "outcome": "done"})
+            s["keyhist"] = {"component-type": 1}
+        return s
 
     def run(self, env: Any, program: Any) -> None:
         run_main_asyncio(env, self.main, env, program)
@@ -193,6 +244,8 @@ class C14:
         pass
 
     def work(self, unit: dict, tier: str) -> dict:
+        if "rebind" in unit:
+            return self.rebind_unit(unit)
         from ..explore import Chooser, reset_determinism
         from ..vloop import Env
 
@@ -284,6 +337,13 @@ class C14:
                                           "program": {"root": case["root"], "config": case["config"]}, "choices": [], "trace": [], "outcome": "done"})
 
     def replay(self, rec: dict) -> int:
+        if "rebind" in rec.get("program", {}):
+            s = self.rebind_unit(rec["program"])
+            for v in s["violations"]:
+                for f in v["fails"]:
+                    print("FAIL", f[0], "-", f[1])
+            print(f"VIOLATION property=C14 replay={rec.get('_path', '')}" if s["violations"] else "no violation on this tree")
+            return 1 if s["violations"] else 0
         s_unit = {"cases": [rec["program"]]}
         from ..explore import Chooser, reset_determinism
         from ..vloop import Env
